@@ -94,6 +94,10 @@ def pval(v: T.Any) -> T.Dict[str, T.Any]:
     if isinstance(held, dict):
         return {'k': 'dict', 'n': 0, 's': [],
                 'e': [{'k': 'ent', 'n': 0, 's': [ord(c) for c in str(k)], 'e': [pval(x)]} for k, x in held.items()]}
+    if type(held).__name__ == 'Interpreter' and hasattr(held, 'variables'):       # SubprojectHolder -> sub-interpreter
+        name = getattr(held, 'subproject', '') or ''
+        ents = [{'k': 'ent', 'n': 0, 's': [ord(c) for c in str(k)], 'e': [pval(x)]} for k, x in held.variables.items()]
+        return {'k': 'subproj', 'n': 0, 's': [ord(c) for c in name], 'e': [{'k': 'dict', 'n': 0, 's': [], 'e': ents}]}
     rng = getattr(held, 'range', None)
     if isinstance(rng, range):
         return {'k': 'range', 'n': 0, 's': [], 'e': [pval(x) for x in rng]}
@@ -191,9 +195,65 @@ def _worker_gen(args: T.Tuple[int, int, int]) -> T.Dict[str, T.Any]:
     return {'alphabet': alpha.items, 'cases': cases}
 
 
+def run_tree(main: str, files: T.Dict[str, str], subs: T.Dict[str, str]) -> T.Dict[str, T.Any]:
+    """A program spread over sub-directories and subprojects: written to disk and run by a fresh Interpreter."""
+    mp, pr, ml = ld.load_modules()
+    from mesonbuild import environment, build, interpreter, msetup, cmdline
+    from mesonbuild.interpreterbase import exceptions as iex
+    with tempfile.TemporaryDirectory(prefix='c01-tree-') as td:
+        src = os.path.join(td, 'src')
+        os.makedirs(src)
+        with open(os.path.join(src, 'meson.build'), 'w') as f:
+            f.write("project('verif')\n" + main)
+        for path, text in files.items():
+            os.makedirs(os.path.join(src, path), exist_ok=True)
+            with open(os.path.join(src, path, 'meson.build'), 'w') as f:
+                f.write(text)
+        for name, text in subs.items():
+            os.makedirs(os.path.join(src, 'subprojects', name), exist_ok=True)
+            with open(os.path.join(src, 'subprojects', name, 'meson.build'), 'w') as f:
+                f.write(f"project('{name}')\n" + text)
+        parser = argparse.ArgumentParser()
+        msetup.add_arguments(parser)
+        opts = parser.parse_args(['--backend=none', src, os.path.join(td, 'bld')])
+        cmdline.parse_cmd_line_options(opts)
+        out: T.Dict[str, T.Any] = {'acc': True, 'ast': []}
+        intr = None
+        try:
+            env = environment.Environment(src, os.path.join(td, 'bld'), opts)
+            intr = interpreter.Interpreter(build.Build(env), user_defined_options=opts)
+            intr.run()
+            out['st'] = 'ok'
+        except ml.MesonException:
+            out['st'] = 'fail'
+        except (iex.ContinueRequest, iex.BreakRequest, RecursionError):
+            out['st'] = 'fail'
+        except Exception as e:  # noqa: BLE001
+            out['st'] = 'internal:' + type(e).__name__
+        out['vars'] = [[[ord(c) for c in k], pval(v)] for k, v in intr.variables.items()] if intr is not None else []
+        return out
+
+
+def _worker_tree(args: T.Tuple[int, int, int]) -> T.Dict[str, T.Any]:
+    lo, hi, sd = args
+    alpha = ld.Alphabet()
+    cases = []
+    for j in range(lo, hi):
+        rnd = random.Random(sd * 7368787 + j)
+        main, files, subs = lang_gen.tree_program(rnd)
+        render = lambda toks: ld.render(toks, rnd, trivia=False)[0]  # noqa: E731
+        obs = run_tree(render(main), {p: render(t) for p, t in files.items()}, {n: render(t) for n, t in subs.items()})
+        obs.update({'id': f'tree:{j}', 't': [alpha.add(t) for t in main], 'text': render(main),
+                    'files': [[[ord(c) for c in p], [alpha.add(t) for t in toks]] for p, toks in files.items()],
+                    'subs': [[[ord(c) for c in n], [alpha.add(t) for t in toks]] for n, toks in subs.items()],
+                    'filetexts': {p: render(t) for p, t in files.items()}, 'subtexts': {n: render(t) for n, t in subs.items()}})
+        cases.append(obs)
+    return {'alphabet': alpha.items, 'cases': cases}
+
+
 # ---------------------------------------------------------------------------
 
-KEEP_EVAL = ('id', 't', 'st', 'vars')
+KEEP_EVAL = ('id', 't', 'st', 'vars', 'files', 'subs')
 
 
 def judge_eval(chk: Check, alphabet: T.List[T.Any], env0: T.List[T.Any], cases: T.List[T.Dict[str, T.Any]], label: str) -> None:
@@ -207,7 +267,8 @@ def judge_eval(chk: Check, alphabet: T.List[T.Any], env0: T.List[T.Any], cases: 
     for part_no, part in enumerate(common.chunks(cases, 200000)):
         with scratch('c01-') as d:
             tf = d / 'cases.json'
-            tf.write_text(json.dumps({'alphabet': alphabet, 'env0': env0, 'cases': [{k: c[k] for k in KEEP_EVAL} for c in part]}))
+            tf.write_text(json.dumps({'alphabet': alphabet, 'env0': env0,
+                                      'cases': [{k: c.get(k, []) for k in KEEP_EVAL} for c in part]}))
             env = {'TRACE_FILE': str(tf)}
             res = run_tlc(SPECS / 'lang', 'TraceEval', env=env, timeout=3600, heap='8g')
             if not res.clean:
@@ -223,7 +284,8 @@ def judge_eval(chk: Check, alphabet: T.List[T.Any], env0: T.List[T.Any], cases: 
         for v in bad:
             c = by_id.get(v['id'], {})
             toks = [alphabet[j] for j in c.get('t', [])]
-            chk.violation(signature(v, toks), {'verdict': v, 'text': c.get('text'), 'outcome': c.get('st'), 'store': c.get('vars')})
+            chk.violation(signature(v, toks), {'verdict': v, 'text': c.get('text'), 'outcome': c.get('st'), 'store': c.get('vars'),
+                                               'files': c.get('filetexts'), 'subprojects': c.get('subtexts')})
 
 
 def signature(v: T.Dict[str, T.Any], toks: T.List[T.Dict[str, T.Any]]) -> str:
@@ -280,6 +342,7 @@ def main(chk: Check) -> None:
     bounds = {'evalexpr': 3, 'evalstmt': 3, 'evalmethod': 3} if quick else {'evalexpr': 4, 'evalstmt': 4, 'evalmethod': 4}
     ngen = 3000 if quick else 120000
     ncli = 32 if quick else 400
+    ntree = 600 if quick else 20000
     chk.rule = ('A: every token sequence up to N over three alphabets exported by the TLC model (expression operators and '
                 'literals; statements and control flow; method calls), evaluated in-process with x predefined; B: seeded '
                 'grammar-generated programs; plus a CLI sample. Non-trivial = program accepted and evaluated without error '
@@ -317,6 +380,12 @@ def main(chk: Check) -> None:
         c02_parser.judge(chk, alphabet, [c for c in cases if not c['st'].startswith('internal:')][:(1500 if quick else len(cases))],
                          'B:gen:tree', mode='C01')
         chk.extra['generated_ok_fraction'] = round(sum(1 for c in cases if c['st'] == 'ok') / max(1, len(cases)), 3)
+        # programs spread over subdir() files and subprojects
+        step = max(1, ntree // (common.NCPU * 2))
+        talpha, tcases = ld.merge_batches(ex.map(_worker_tree, [(lo, min(ntree, lo + step), chk.seed) for lo in range(0, ntree, step)]))
+        account(chk, tcases)
+        judge_eval(chk, talpha, [], tcases, 'C:tree')
+        chk.extra['tree_ok_fraction'] = round(sum(1 for c in tcases if c['st'] == 'ok') / max(1, len(tcases)), 3)
     cli_sample(chk, cases, ncli)
     chk.exhaustive = True
     chk.assumptions += [
@@ -325,7 +394,7 @@ def main(chk: Check) -> None:
         'expression position, int-vs-bool inside containers, textual form of containers in format()/f-strings, str methods on '
         'non-ASCII text, Windows-style paths with "/", digit separators in to_int, splitlines, version_compare (covered by C19), '
         'array.slice/flatten, dict.values, numbers beyond 30000 in products',
-        'subdir() and subproject() are not exercised by this check yet',
+        'subdir() is modelled as in-place inclusion and subproject() as a separate store reachable through get_variable(); a directory entered twice and subdir() inside loops are not generated',
         'integers are kept below 2^31 (TLC integers)',
     ]
 
